@@ -1,5 +1,5 @@
 """Per-property pipelines."""
-import os, json, subprocess
+import os, json, subprocess, random
 from orchestrator import *
 
 PROPS = {}
@@ -439,6 +439,73 @@ def c19(ctx):
                        "(nil vs empty distinguished, raw bytes included) and each successful decode is also done into a fresh variable; TLC walks every history "
                        "and judges history-freedom, atomicity and absence of aliasing",
                   exhaustive=True)
+
+
+# ----------------------------------------------------------------------------- C18
+def race_run(ctx, cases):
+    """run the ungated stress under the race detector; the detector's reports are observations added to the events"""
+    binp = build_harness(ctx, race=True)
+    events = []
+    for c in cases:
+        e = dict(os.environ, VERIF_SEED=str(ctx.seed), VERIF_TIER=ctx.tier, VERIF_FIXTURES=os.path.join(VERIF, "fixtures"), VERIF_SERIAL="1",
+                 GORACE="halt_on_error=0 exitcode=0")
+        try:
+            r = subprocess.run([binp, "exec", "racestress"], input=json.dumps(c) + "\n", capture_output=True, text=True, timeout=600, env=e)
+        except subprocess.TimeoutExpired:
+            raise Infra("race stress timed out")
+        races = r.stderr.count("WARNING: DATA RACE")
+        crashed = r.returncode != 0
+        ev = None
+        for line in r.stdout.splitlines():
+            if line.startswith("{"):
+                ev = json.loads(line)
+        if ev is None:
+            ev = dict(op="racestress", ops=c["ops"], decoded=c["decoded"], workers=c["workers"], iters=c["iters"], bad=0, unchanged=True)
+            crashed = True
+        ev["races"], ev["crashed"] = races, crashed
+        if crashed or races:
+            ev["stderr"] = r.stderr[-1500:]
+        events.append(ev)
+    return events
+
+
+@prop("C18")
+def c18(ctx):
+    inv = ["ReadOnly", "SeqEquivalent", "RaceFree", "Emit"]
+    cfgs = [dict(NThreads=2, CallsPerThread=2, OpSet=tlaset(["verify", "marshal", "verifycs", "sign"])),
+            dict(NThreads=3, CallsPerThread=1, OpSet=tlaset(["verify", "marshal", "verifycs0", "verifyhenv", "keymarshal", "sign", "verifysign", "marshalsign"]))]
+    if not ctx.quick():
+        cfgs += [dict(NThreads=2, CallsPerThread=2, OpSet=tlaset(["verifysign", "marshalsign", "verifyhenv", "keyverifier", "marshalcs", "verifycs0"])),
+                 dict(NThreads=3, CallsPerThread=2, OpSet=tlaset(["verify", "marshal", "sign"]))]
+    scheds = []
+    for c in cfgs:
+        scheds += gen(ctx, "Gen_C18", cfgtext(invariants=inv, constants=c), timeout=3000, heap="12g")
+    rnd = random.Random(ctx.seed)
+    limit = 6000 if ctx.quick() else 60000
+    if len(scheds) > limit:
+        ctx.notes["schedules_generated"] = len(scheds)
+        scheds = rnd.sample(scheds, limit)
+    for i, sc in enumerate(scheds):
+        sc["decoded"] = (i % 2 == 1)
+    events = harness(ctx, ["exec", "conc"], scheds, env=dict(VERIF_SERIAL="1"))
+    seq = gen(ctx, "Gen_C18Seq", cfgtext(invariants=["Emit"]), timeout=600)
+    events += harness(ctx, ["exec", "memflow"], seq)
+    stress = []
+    iters = 150 if ctx.quick() else 1500
+    for ops in (["verify", "marshal", "verifycs", "verifycs0"], ["verifysign", "marshalsign", "verifyhenv", "keyverifier", "keymarshal", "marshalcs"], ["sign", "verify", "marshal"]):
+        for dec in (False, True):
+            stress.append(dict(ops=ops, decoded=dec, workers=8, iters=iters))
+    events += race_run(ctx, stress)
+    rejects = judge(ctx, "Trace_C18", events, per_shard=3000)
+    return report(ctx, events, rejects,
+                  nontrivial=lambda e: True,
+                  key=lambda e: json.dumps([e["op"], e.get("sched"), e.get("progs"), e.get("decoded"), e.get("ops"), e.get("steps")]),
+                  rule="TLC explores every interleaving of the thread state machine (Call / callback / Resume) for 2 threads x 2 calls and 3 threads x 1 call over "
+                       "read-only operations on shared values with a shared verifier and Sign on own messages with a shared signer, checking ReadOnly, RaceFree "
+                       "and SeqEquivalent on the specification, and emits every complete schedule (quick tier: a seeded sample); each schedule is replayed with "
+                       "goroutines gated at the key callbacks, the shared values are projected at every quiescent point; single-threaded programs bracket each "
+                       "read-only call with projections of values carrying non-normalised Go types; the same operations run ungated under the Go race detector",
+                  exhaustive=not ctx.quick())
 
 
 def setup():
